@@ -39,6 +39,10 @@ type Input struct {
 	Top   int      `json:"top"`
 	Dirs  []string `json:"dirs"`
 	Files []File   `json:"files"`
+	// Prior: the same command has been run before, in the same working directory (so its report directory is still
+	// there), on an earlier state of DIR in which every sub-directory - the now empty ones too - held one more file
+	// and the root one file of a language the tree no longer has. The observation is the SECOND run's.
+	Prior bool `json:"prior"`
 }
 
 type Case struct {
@@ -445,8 +449,30 @@ func one(raw json.RawMessage) interface{} {
 	// the command writes into it; everything else gets a fresh one per command
 	ownReporter := in.Root == "." && has(in.Dirs, "coca_reporter")
 
+	prior := func(args ...string) {
+		if !in.Prior || in.Root == "." {
+			return
+		}
+		was := in
+		was.Files = append([]File{}, in.Files...)
+		for _, d := range in.Dirs {
+			was.Files = append(was.Files, File{Dir: d, Path: "earlier/Gone.java", Lang: "Java", Ext: "java", Code: 5, Comment: 1, Blank: 1})
+		}
+		was.Files = append(was.Files, File{Dir: "", Path: "gone.rb", Lang: "Ruby", Ext: "rb", Code: 7})
+		if err := render(tree, was); err != nil {
+			fmt.Fprintln(os.Stderr, "harness: render:", err)
+			os.Exit(2)
+		}
+		runCoca(work, tmp, args...)
+		os.RemoveAll(tree)
+		if err := render(tree, in); err != nil {
+			fmt.Fprintln(os.Stderr, "harness: render:", err)
+			os.Exit(2)
+		}
+	}
 	if has(in.Modes, "bydir") {
 		o := &rec.Observed.ByDir
+		prior(append([]string{"cloc", arg, "--by-directory"}, extArgs...)...)
 		r := runCoca(work, tmp, append([]string{"cloc", arg, "--by-directory"}, extArgs...)...)
 		o.Ran = true
 		o.Exit = r.exit
@@ -471,6 +497,7 @@ func one(raw json.RawMessage) interface{} {
 	}
 	if has(in.Modes, "top") {
 		o := &rec.Observed.Top
+		prior(append([]string{"cloc", arg, "--top-file", "--top-size", strconv.Itoa(in.Top)}, extArgs...)...)
 		r := runCoca(work, tmp, append([]string{"cloc", arg, "--top-file", "--top-size", strconv.Itoa(in.Top)}, extArgs...)...)
 		o.Ran = true
 		o.Exit = r.exit
